@@ -215,7 +215,13 @@ def rule_flatten(ctx, r):
         r.ok(con + "::" + k.split(" ")[0], k + " covered by the witness shapes", fl.where)
     tgt = idx.cls(f"{CORE}:Target")
     WD = tok("WD")
-    obj = Obj("target", working_dir=WD, inputs={"a": ["i1", "/abs/i2"]}, outputs=["o1", ["o2"]], protect={"p1"}, **{"__class__": tgt})
+    def fresh_target():
+        o = Obj("target", **{"__class__": tgt})
+        # fields the class declares besides the ones given here (caches, counters) get their declared defaults
+        interp._bind_fields(o, tgt, (), {"name": "T", "working_dir": WD, "inputs": {"a": ["i1", "/abs/i2"]}, "outputs": ["o1", ["o2"]], "protect": {"p1"},
+                                         "options": {}, "spec": "", "group": None})
+        return o
+    obj = fresh_target()
     n = lambda p: p if p.startswith("/") else tok("abs:" + WD + "/" + p)
     for meth, want in (("flattened_inputs", [n("i1"), "/abs/i2"]), ("flattened_outputs", [n("o1"), n("o2")]), ("protected", {n("p1")})):
         m = idx.method(tgt, meth)
@@ -238,6 +244,26 @@ def rule_flatten(ctx, r):
         r.check(same(got, want), c2, "= normalised flattening of its own attribute against the target's working directory",
                 f"Target.{meth} yields {str(got)[:90]} for inputs={{'a': ['i1', '/abs/i2']}}, outputs=['o1', ['o2']], protect={{'p1'}}: it must be the normalised "
                 "flattening of its own attribute", m.where)
+        # the accessor reflects the attribute as it is NOW: targets are mutable, a workflow may extend a list after the paths were first asked for
+        if same(got, want):
+            o2 = fresh_target()
+            attr = {"flattened_inputs": "inputs", "flattened_outputs": "outputs", "protected": "protect"}[meth]
+            try:
+                first = interp.call(m, (), {}, self_obj=o2)
+                cur = getattr(o2, attr)
+                if isinstance(cur, dict):
+                    cur["late"] = "/abs/late"
+                elif isinstance(cur, list):
+                    cur.append("/abs/late")
+                else:
+                    cur.add("/abs/late")
+                second = interp.call(m, (), {}, self_obj=o2)
+                stale = "/abs/late" not in list(second)
+            except (Raised, Unsupported) as exc:
+                stale, second = False, f"<{exc}>"
+            r.check(not stale, c2 + "::current", "a path added to the attribute after the first call shows up in the next call (nothing is memoised per target)",
+                    f"after Target.{meth}() was called once, adding '/abs/late' to .{attr} in place is not reflected by the next call ({str(second)[:80]}): the flattened paths "
+                    "are memoised per target, so a graph rebuilt after the change keeps the old edges, producers and validation verdict", m.where)
 
 
 def _one_snapshot_structural(ctx, r):
@@ -436,6 +462,9 @@ def run(ctx):
     rule_hash_after_accept(ctx, r7)
     from .shared import rule_config_switch
     rule_config_switch(ctx, r7, "use_spec_hashes", "get_spec_hashes chooses between the file-backed and the no-op hash store")
+    # "unchanged since it was last submitted": the record made at submission must survive however that invocation ended
+    from .persist import rule_exit_persists
+    rule_exit_persists(ctx, r7, ("spec hashes",))
     # status mapping: completed <=> not should_run for UNKNOWN/COMPLETED backend states with no pending deps comes from the C02 table
     r8 = ctx.rule("R8", "no job / finished job and no pending dependency: shown completed and not submitted iff should_run is False")
     from .schedtable import rule_decision_table
